@@ -108,8 +108,8 @@ class C01(Spec):
                    '(counted in the evidence)']
 
     def gen(self, tier, rng):
-        n = 120 if tier == 'quick' else 2000
-        nextra = 6 if tier == 'quick' else 14
+        n = 120 if tier == 'quick' else 1000
+        nextra = 6 if tier == 'quick' else 12
         cases = []
         for k in range(n):
             cpl = (k % 4 == 3)
@@ -117,7 +117,7 @@ class C01(Spec):
             cases.append({'spec': spec, 'cfgs': configs(spec, rng, nextra), 'kind': spec_kind(spec)})
         # responses that are (anti-)parallel multiples of other responses, upstream sub-group solver with
         # rhs_checking (linear-solution cache)
-        for k in range(30 if tier == 'quick' else 400):
+        for k in range(30 if tier == 'quick' else 200):
             spec = sg.gen_valid_rhs_spec(rng)
             cases.append({'spec': spec, 'cfgs': rhs_configs(spec, rng, nextra + 2), 'kind': 'rhs-chain'})
         return cases
